@@ -80,6 +80,8 @@ type Exec struct {
 	ReqSeq                    int
 	ScannerID                 uint64
 	MoreInRegion, MoreResults *bool
+	Op                        string // master requests: the method
+	ProcID                    uint64 // master requests: the procedure started / asked about
 	// decoded request, for the wire-content oracle (C05)
 	ReqGet   *pb.Get
 	ReqMut   *pb.MutationProto
@@ -198,6 +200,28 @@ func (sc *ServerConn) Feed(b []byte) {
 			msg = &pb.GetTableNamesRequest{}
 		case "SetBalancerRunning":
 			msg = &pb.SetBalancerRunningRequest{}
+		case "CreateTable":
+			msg = &pb.CreateTableRequest{}
+		case "DeleteTable":
+			msg = &pb.DeleteTableRequest{}
+		case "EnableTable":
+			msg = &pb.EnableTableRequest{}
+		case "DisableTable":
+			msg = &pb.DisableTableRequest{}
+		case "getProcedureResult":
+			msg = &pb.GetProcedureResultRequest{}
+		case "MoveRegion":
+			msg = &pb.MoveRegionRequest{}
+		case "Snapshot":
+			msg = &pb.SnapshotRequest{}
+		case "IsSnapshotDone":
+			msg = &pb.IsSnapshotDoneRequest{}
+		case "DeleteSnapshot":
+			msg = &pb.DeleteSnapshotRequest{}
+		case "GetCompletedSnapshots":
+			msg = &pb.GetCompletedSnapshotsRequest{}
+		case "RestoreSnapshot":
+			msg = &pb.RestoreSnapshotRequest{}
 		default:
 			c.Violate("C05 conn=%d call=%d: unknown method %q", sc.ID, id, req.Method)
 			continue
@@ -765,6 +789,162 @@ func (c *Cluster) Execute(req *Request) []byte {
 		c.logExec(e)
 		return finish(nil, &pb.SetBalancerRunningResponse{PrevBalanceValue: proto.Bool(e.Seq%2 == 0)}, nil)
 	}
+	return c.execMaster(req, hdrExc, finish)
+}
+
+// Proc is a master procedure: it is reported as running for Polls result
+// requests and as finished afterwards, with Fail as its exception if set.
+// Procedures survive a master fail-over (they are persisted by a real master).
+type Proc struct {
+	ID    uint64
+	Op    string
+	Table string
+	Polls int
+	Seen  int
+	Fail  string
+}
+
+// Snap is a snapshot being taken or completed.
+type Snap struct {
+	Name, Table string
+	Polls, Seen int
+}
+
+// execMaster handles the administrative requests that start or poll a
+// procedure or a snapshot. The model is idempotent: a request the client sends
+// again (after a connection died under it) succeeds again.
+func (c *Cluster) execMaster(req *Request, hdrExc func(*Exec, string, string) []byte,
+	finish func(*pb.ExceptionResponse, proto.Message, []Cell) []byte) []byte {
+	e := c.newExec(req, "Master")
+	e.Op = req.Method
+	start := func(table string) (uint64, []byte) {
+		e.Row = []byte(table)
+		if resp := c.masterCheck(req, e, hdrExc); resp != nil {
+			return 0, resp
+		}
+		if c.Procs == nil {
+			c.Procs = map[uint64]*Proc{}
+		}
+		c.NextProc++
+		pr := &Proc{ID: c.NextProc, Op: req.Method, Table: table, Polls: int(c.NextProc*7+e.Seq) % 4}
+		if c.ProcFail != "" && c.NextProc%3 == 0 {
+			pr.Fail = c.ProcFail
+		}
+		c.Procs[pr.ID] = pr
+		e.ProcID = pr.ID
+		c.logExec(e)
+		return pr.ID, nil
+	}
+	tn := func(t *pb.TableName) string { return string(t.GetNamespace()) + ":" + string(t.GetQualifier()) }
+	switch m := req.Msg.(type) {
+	case *pb.CreateTableRequest:
+		id, resp := start(tn(m.GetTableSchema().GetTableName()))
+		if resp != nil {
+			return resp
+		}
+		return finish(nil, &pb.CreateTableResponse{ProcId: proto.Uint64(id)}, nil)
+	case *pb.DeleteTableRequest:
+		id, resp := start(tn(m.GetTableName()))
+		if resp != nil {
+			return resp
+		}
+		return finish(nil, &pb.DeleteTableResponse{ProcId: proto.Uint64(id)}, nil)
+	case *pb.EnableTableRequest:
+		id, resp := start(tn(m.GetTableName()))
+		if resp != nil {
+			return resp
+		}
+		return finish(nil, &pb.EnableTableResponse{ProcId: proto.Uint64(id)}, nil)
+	case *pb.DisableTableRequest:
+		id, resp := start(tn(m.GetTableName()))
+		if resp != nil {
+			return resp
+		}
+		return finish(nil, &pb.DisableTableResponse{ProcId: proto.Uint64(id)}, nil)
+	case *pb.GetProcedureResultRequest:
+		e.ProcID = m.GetProcId()
+		if resp := c.masterCheck(req, e, hdrExc); resp != nil {
+			return resp
+		}
+		c.logExec(e)
+		pr := c.Procs[m.GetProcId()]
+		if pr == nil {
+			return finish(nil, &pb.GetProcedureResultResponse{State: pb.GetProcedureResultResponse_NOT_FOUND.Enum()}, nil)
+		}
+		pr.Seen++
+		if pr.Seen <= pr.Polls {
+			return finish(nil, &pb.GetProcedureResultResponse{State: pb.GetProcedureResultResponse_RUNNING.Enum()}, nil)
+		}
+		out := &pb.GetProcedureResultResponse{State: pb.GetProcedureResultResponse_FINISHED.Enum()}
+		if pr.Fail != "" {
+			out.Exception = &pb.ForeignExceptionMessage{Source: proto.String("master"), GenericException: &pb.GenericExceptionMessage{
+				ClassName: proto.String(pr.Fail), Message: proto.String(fmt.Sprintf("procedure %d failed", pr.ID))}}
+		}
+		return finish(nil, out, nil)
+	case *pb.MoveRegionRequest:
+		e.Row = m.GetRegion().GetValue()
+		if resp := c.masterCheck(req, e, hdrExc); resp != nil {
+			return resp
+		}
+		c.logExec(e)
+		return finish(nil, &pb.MoveRegionResponse{}, nil)
+	case *pb.SnapshotRequest:
+		e.Row = []byte(m.GetSnapshot().GetName())
+		if resp := c.masterCheck(req, e, hdrExc); resp != nil {
+			return resp
+		}
+		c.logExec(e)
+		if c.Snaps == nil {
+			c.Snaps = map[string]*Snap{}
+		}
+		c.Snaps[m.GetSnapshot().GetName()] = &Snap{Name: m.GetSnapshot().GetName(), Table: m.GetSnapshot().GetTable(), Polls: int(e.Seq) % 3}
+		return finish(nil, &pb.SnapshotResponse{ExpectedTimeout: proto.Int64(60000)}, nil)
+	case *pb.IsSnapshotDoneRequest:
+		e.Row = []byte(m.GetSnapshot().GetName())
+		if resp := c.masterCheck(req, e, hdrExc); resp != nil {
+			return resp
+		}
+		sn := c.Snaps[m.GetSnapshot().GetName()]
+		if sn == nil {
+			return hdrExc(e, "org.apache.hadoop.hbase.snapshot.UnknownSnapshotException", "no such snapshot")
+		}
+		c.logExec(e)
+		sn.Seen++
+		return finish(nil, &pb.IsSnapshotDoneResponse{Done: proto.Bool(sn.Seen > sn.Polls)}, nil)
+	case *pb.DeleteSnapshotRequest:
+		e.Row = []byte(m.GetSnapshot().GetName())
+		if resp := c.masterCheck(req, e, hdrExc); resp != nil {
+			return resp
+		}
+		c.logExec(e)
+		delete(c.Snaps, m.GetSnapshot().GetName())
+		return finish(nil, &pb.DeleteSnapshotResponse{}, nil)
+	case *pb.GetCompletedSnapshotsRequest:
+		if resp := c.masterCheck(req, e, hdrExc); resp != nil {
+			return resp
+		}
+		c.logExec(e)
+		var names []string
+		for n, sn := range c.Snaps {
+			if sn.Seen > sn.Polls {
+				names = append(names, n)
+			}
+		}
+		sort.Strings(names)
+		out := &pb.GetCompletedSnapshotsResponse{}
+		for _, n := range names {
+			out.Snapshots = append(out.Snapshots, &pb.SnapshotDescription{Name: proto.String(n), Table: proto.String(c.Snaps[n].Table)})
+		}
+		return finish(nil, out, nil)
+	case *pb.RestoreSnapshotRequest:
+		e.Row = []byte(m.GetSnapshot().GetName())
+		if resp := c.masterCheck(req, e, hdrExc); resp != nil {
+			return resp
+		}
+		c.logExec(e)
+		return finish(nil, &pb.RestoreSnapshotResponse{}, nil)
+	}
+	c.ExecSeq--
 	return nil
 }
 
